@@ -402,6 +402,12 @@ def optres(I, st, frame, t, name, tys, method, args, ev):
             r = without_tags(r) if tv is None else with_tag(without_tags(r), "#v:" + adt, tv)
         return r
     if method in ("unwrap_or", "or"):
+        adt = OPT if "Option" in name else RES
+        tv = tagvals(a0, "#v:" + adt)
+        if method == "unwrap_or" and tv is not None and tv <= {"Some", "Ok"}:
+            return without_tags(a0)
+        if method == "unwrap_or" and tv is not None and tv <= {"None", "Err"}:
+            return without_tags(args[1])
         return vjoin(without_tags(a0), without_tags(args[1]))
     if method in ("unwrap_or_else", "or_else", "map_or_else"):
         r = I.invoke(st, frame, args[1], [V("Const(error)")], site)
@@ -600,9 +606,12 @@ def collections(I, st, frame, t, name, self_ty, tys, trait, method, args, ev):
         I.write_through(st, a0, elem_of(I, st, args[1]), path=("[*]",))
         return V("Const(())")
     if method in ELEMENT and args and not (method in ("remove", "pop", "swap_remove")):
-        if method in ("get", "get_mut") and is_map:
-            pass
-        return elem_ref(I, st, a0)
+        r = elem_ref(I, st, a0)
+        if method in ("index", "index_mut", "get", "get_mut") and len(args) == 2 and not is_map:
+            c = const_of(D(args[1]))
+            if c is not None:   # constant position: remembered on the element reference ('#idx')
+                r = Val(r.atoms, dict(r.fields, **{"#may:idx": V("Const(%s)" % c)}))
+        return r
     if method in ("entry",) and is_map:
         return elem_ref(I, st, a0)
     if method in ("or_insert", "or_default", "or_insert_with") and args:
